@@ -1268,6 +1268,15 @@ var ccallProgs = []struct{ name, src string }{
 	{"sort", `local function s(n) if n == 0 then return 0 end local r
 	            table.sort({ 2, 1 }, function(a, b) if not r then r = s(n - 1) end return a < b end) return r + 1 end
 	          return pcall(s, N)`},
+	// coroutines resuming coroutines: every level runs on the Go stack of its resumer (maxResumeDepth); every level's
+	// coroutine is created by the one above it and dies before its creator goes on (with a context: a chain of derived contexts)
+	{"resume", `local function f(n) if n == 0 then return 0 end local co = coroutine.create(f) local ok, v = coroutine.resume(co, n - 1)
+	              if not ok then error(v, 0) end if coroutine.status(co) ~= "dead" then error("not dead", 0) end return v + 1 end
+	            return pcall(f, N)`},
+	// (the error leaves each wrap function through a pcall: a wrap function called from Lua code prefixes a position at every level)
+	{"wrap", `local function f(n) if n == 0 then return 0 end local ok, v = pcall(coroutine.wrap(f), n - 1) if not ok then error(v, 0) end
+	            local s = 0 for i = 1, 10 do s = s + i end return v + s - 54 end
+	          return pcall(f, N)`},
 	{"gsub", `local function g(n) if n == 0 then return 0 end local r
 	            string.gsub("x", "x", function() r = g(n - 1) end) return r + 1 end
 	          return pcall(g, N)`},
